@@ -292,13 +292,69 @@ class Run:
 # --------------------------------------------------------------------------
 # Known findings
 # --------------------------------------------------------------------------
-def run_threads(callables, switch_interval=1e-5, timeout=600, rounds=1):
+class yield_injection:
+    """
+    Context manager: while active, every statement-start line executed in the verde sources under test gives up the GIL with
+    probability `probability` (time.sleep(0) from a sys.monitoring LINE callback), so that concurrently running threads are
+    interleaved between *any* two lines of the library, not only where the interpreter's switch interval happens to fall.
+    Only code the program can really be pre-empted in is affected (pure-Python lines; nothing is injected inside C calls).
+    """
+
+    TOOL = 5
+
+    def __init__(self, probability=0.25, seed=0):
+        self.probability = probability
+        self.seed = seed
+        self.fired = 0
+        self.active = False
+
+    def __enter__(self):
+        import random
+
+        mon = getattr(sys, "monitoring", None)
+        if mon is None or self.probability <= 0:
+            return self
+        import verde
+
+        root = os.path.dirname(os.path.abspath(verde.__file__)) + os.sep
+        rnd = random.Random(self.seed)
+
+        def on_line(code, line):  # noqa: U100
+            if not code.co_filename.startswith(root) or (os.sep + "tests" + os.sep) in code.co_filename:
+                return mon.DISABLE
+            if rnd.random() < self.probability:
+                self.fired += 1
+                time.sleep(0)
+            return None
+
+        try:
+            mon.use_tool_id(self.TOOL, "verde-verif-yield")
+        except ValueError:
+            return self
+        mon.register_callback(self.TOOL, mon.events.LINE, on_line)
+        mon.set_events(self.TOOL, mon.events.LINE)
+        self.active = True
+        return self
+
+    def __exit__(self, *exc):
+        if self.active:
+            mon = sys.monitoring
+            mon.set_events(self.TOOL, 0)
+            mon.register_callback(self.TOOL, mon.events.LINE, None)
+            mon.free_tool_id(self.TOOL)
+            mon.restart_events()
+            self.active = False
+        return False
+
+
+def run_threads(callables, switch_interval=1e-5, timeout=600, rounds=1, yield_probability=0.0, seed=0):
     """
     Run the callables concurrently, one thread each, released together by a barrier, with a very short interpreter switch
     interval so that the threads interleave between (not only inside) numpy calls. Returns [(result, exception)] in the order of
     the callables; a thread that does not finish within `timeout` seconds yields (None, TimeoutError) - inconclusive, the
     caller decides. The monitors installed through the tap judge every call made in every thread (the tap keeps one call stack
-    per thread and the Run's counters are locked).
+    per thread and the Run's counters are locked). With yield_probability > 0 the threads additionally give up the GIL at random
+    statement starts inside the verde sources (see yield_injection); `run_threads.yields_injected` accumulates how often.
     """
     out = [(None, None)] * len(callables)
     barrier = threading.Barrier(len(callables))
@@ -316,14 +372,16 @@ def run_threads(callables, switch_interval=1e-5, timeout=600, rounds=1):
     old = sys.getswitchinterval()
     sys.setswitchinterval(switch_interval)
     try:
-        threads = [threading.Thread(target=work, args=(k, fn), daemon=True) for k, fn in enumerate(callables)]
-        for th in threads:
-            th.start()
-        deadline = time.time() + timeout
-        for k, th in enumerate(threads):
-            th.join(max(0.0, deadline - time.time()))
-            if th.is_alive():
-                out[k] = (None, TimeoutError("thread %d still running after %ss" % (k, timeout)))
+        with yield_injection(yield_probability, seed) as inj:
+            threads = [threading.Thread(target=work, args=(k, fn), daemon=True) for k, fn in enumerate(callables)]
+            for th in threads:
+                th.start()
+            deadline = time.time() + timeout
+            for k, th in enumerate(threads):
+                th.join(max(0.0, deadline - time.time()))
+                if th.is_alive():
+                    out[k] = (None, TimeoutError("thread %d still running after %ss" % (k, timeout)))
+        run_threads.yields_injected = getattr(run_threads, "yields_injected", 0) + inj.fired
     finally:
         sys.setswitchinterval(old)
     return out
